@@ -34,7 +34,7 @@ func init() {
 		},
 		Run:        runC17,
 		Required:   []string{"runs.in_process", "runs.cross_process", "scenarios.random_population", "scenarios.spawned", "epochs.compared"},
-		TimeoutSec: func(tier string) int { return 1200 },
+		TimeoutSec: func(tier string) int { return 7200 },
 	})
 }
 
